@@ -18,6 +18,7 @@ type Env struct {
 	ExtKeys    []*Decl // ext value-key structs
 	ExtBasic   []*Decl
 	Opt        EnvOpt
+	foreign    []*Decl // declarations of ext packages generated before the current one
 }
 
 // EnvOpt tunes the environment.
@@ -85,7 +86,11 @@ func DrawEnv(t *rapid.T, opt EnvOpt) *Env {
 				local = append(local, d)
 				e.ExtStructs = append(e.ExtStructs, d)
 			}
-			_ = i
+			if i == 0 {
+				e.foreign = append([]*Decl{nb, ks}, local...)
+			} else {
+				e.foreign = nil
+			}
 		}
 	}
 	// named basics
@@ -248,6 +253,10 @@ func (e *Env) fieldName(t *rapid.T, j int) string {
 }
 
 func (e *Env) drawExtFieldType(t *rapid.T, xp *ExtPkg, nb, ks *Decl, local []*Decl, self *Decl, depth int) *Type {
+	// a struct of one imported package may use types of a third package (declared earlier, so no import cycle)
+	if len(e.foreign) > 0 && rapid.IntRange(0, 5).Draw(t, "extforeign") == 0 {
+		return NamedT(pick(t, "foreign", e.foreign))
+	}
 	c := rapid.IntRange(0, 9).Draw(t, "extft")
 	if depth <= 0 && c > 3 {
 		c = c % 4
